@@ -134,6 +134,32 @@ def unjson(v):
     return v
 
 
+class ArgList:
+    """adapter presenting a fixed argument list through the Family.args interface (used by composed harnesses)"""
+
+    def __init__(self, a, kernel=None, pkg=None):
+        self._a, self.kernel, self.pkg = a, kernel, pkg
+
+    def args(self, inst, I):
+        return self._a
+
+
+def sym_kernel(ex, path, kernel, arglist, srcfile):
+    """run one kernel symbolically (or concretely) on an explicit argument list; returns the outputs dict"""
+    args, objs, vals = make_call(ArgList(arglist), None, None)
+    ret = ex.run(path, kernel, vals, srcfile)
+    O = {'ret': ret}
+    for a in args:
+        if isinstance(a, Buf):
+            O[a.name] = objs[a.name].cells
+    return O
+
+
+def nat_kernel(ctx, pkg, kernel, arglist):
+    """run one kernel natively on an explicit (concrete) argument list"""
+    return native_call(ctx, ArgList(arglist, kernel, pkg), None, None)
+
+
 class KnownPred:
     """input-class predicate of a known finding.  pred(inst, I) must work on symbolic and concrete I."""
 
@@ -295,6 +321,7 @@ def explore_instance(ctx, fam, inst, tier, seed, known_active):
     t0 = time.time()
     mod = ctx.mod(fam.pkg)
     ex = Exec(mod, timeout_ms=20000 if tier == 'quick' else 60000, seed=seed)
+    ex.exact_consts = True
     res = dict(family=fam.name, inst=inst, paths=0, obligations=0, discharged=0, inconclusive=[], nonrepro=0,
                known_hits={}, violations=[], samples=[], bound_exceeded=0, validated=0, validation_skipped=0,
                mismatches=[], nontrivial=0, error=None, deferred_memory=0, uninit_reads=0, labels={})
@@ -555,11 +582,14 @@ def validate_path(ctx, ex, fam, inst, path, I, res, srcfile):
     Ic = concretize(I, m)
     p2 = Path()
     xr.Eps.reset(False)
+    ex.exact_consts = False
     try:
         Oi = fam.execute(ex, p2, inst, Ic, srcfile)
     except BoundExceeded:
         res['validation_skipped'] += 1
         return
+    finally:
+        ex.exact_consts = True
     if p2.uninit or p2.viols and any(v.cond is True for v in p2.viols):
         res['validation_skipped'] += 1   # behaviour of the real build is undefined here: nothing to compare
         return
